@@ -1070,6 +1070,6 @@ var subFault = runlog.Register(&runlog.Sub[Case]{
 	Run:  runCase,
 })
 
-func TestUnpackFault(t *testing.T) { subFault.Check(t, 50000, 3000000) }
+func TestUnpackFault(t *testing.T) { subFault.Check(t, 120000, 3000000) }
 
 func TestReplay(t *testing.T) { runlog.ReplayMain(t) }
